@@ -37,6 +37,13 @@ type UnitResult struct {
 	Pos         string
 	HasContract bool
 	StaleCallSites []string
+	ModelTerms  []ModelTerm // entry-state terms worth printing from a counterexample
+}
+
+// ModelTerm labels an SMT term of the entry state (parameter or field reachable from a parameter).
+type ModelTerm struct {
+	Label string
+	Term  string
 }
 
 // UnitsFor lists the units relevant to a property ("" = every contracted function).
@@ -259,6 +266,7 @@ func (w *World) VerifyWith(u *Unit, classes map[string][]string) (res *UnitResul
 		}
 	}
 	u.entry = st.snapshot()
+	res.ModelTerms = x.modelTerms(u)
 	// vacuity: the precondition must be satisfiable
 	e.obls = append(e.obls, &Obligation{Unit: u.Name, Name: u.Name + "/vacuity:requires", Kind: "vacuity", PC: st.pc[:len(st.pc):len(st.pc)], Goal: smt.False, Cover: true, Text: "precondition is satisfiable"})
 	nret := 0
@@ -337,6 +345,54 @@ type captVar struct {
 	cell Value
 }
 
+// modelTerms lists parameters and the entry values of fields reachable from them (two levels).
+func (x *exec) modelTerms(u *Unit) []ModelTerm {
+	e := x.e
+	var out []ModelTerm
+	seen := map[string]bool{}
+	var addVal func(label string, v Value, depth int)
+	addVal = func(label string, v Value, depth int) {
+		if v.P != nil || v.T == nil {
+			return
+		}
+		ls := e.leaves(v.T)
+		for i, l := range ls {
+			if i < len(v.L) && !seen[label+l.Path] {
+				seen[label+l.Path] = true
+				out = append(out, ModelTerm{label + l.Path, v.L[i].S})
+			}
+		}
+		if depth <= 0 || len(out) > 400 {
+			return
+		}
+		pt, ok := types.Unalias(v.T).Underlying().(*types.Pointer)
+		if !ok {
+			return
+		}
+		st, ok := types.Unalias(pt.Elem()).Underlying().(*types.Struct)
+		if !ok {
+			return
+		}
+		if n, isN := types.Unalias(pt.Elem()).(*types.Named); isN && n.Obj().Pkg() != nil && !e.w.Prog.InModule(n.Obj().Pkg().Path()) {
+			return
+		}
+		for i := 0; i < st.NumFields(); i++ {
+			f := st.Field(i)
+			func() {
+				defer func() { recover() }()
+				p := &Ptr{Kind: PtrHeap, Base: v.one(), Root: pt.Elem(), Path: []int{i}}
+				fv := e.loadRaw(u.entry, p)
+				addVal(label+"."+f.Name(), fv, depth-1)
+			}()
+		}
+	}
+	names := sortedKeys(u.entryNames)
+	for _, n := range names {
+		addVal(n, u.entryNames[n], 2)
+	}
+	return out
+}
+
 // atReturn checks postconditions and the frame on one return path.
 func (x *exec) atReturn(st *State, u *Unit, rets []Value, captured []captVar, nret int) {
 	e := x.e
@@ -386,6 +442,7 @@ type frameExcl struct {
 	ref    smt.Term
 	lo, hi *smt.Term // Mem ranges (absolute indices)
 	whole  bool
+	cond   *smt.Term // "modifies loc if cond"
 }
 
 // frameExclusions evaluates the unit's modifies clause in the entry state.
@@ -401,6 +458,17 @@ func (x *exec) frameExclusions(u *Unit) []frameExcl {
 	var add func(m spec.Expr)
 	add = func(m spec.Expr) {
 		switch m := m.(type) {
+		case *spec.Cond:
+			if m.B != nil {
+				specErr("modifies: unsupported location %s", exprString(m))
+			}
+			c := e.ctx.Name("modif", pre.evalBool(m.C))
+			n0 := len(ex)
+			add(m.A)
+			for i := n0; i < len(ex); i++ {
+				cc := c
+				ex[i].cond = &cc
+			}
 		case *spec.Sel:
 			base := pre.eval(m.X)
 			if strings.HasPrefix(m.Name, "$") {
@@ -477,11 +545,16 @@ func (x *exec) outsideFrame(u *Unit, key string, hk heapKey, r, k smt.Term) smt.
 		if !keyMatches(key, ex.prefix) || ex.ref.Sort != hk.Idx {
 			continue
 		}
+		var hit smt.Term
 		if ex.whole || !isMem {
-			conds = append(conds, smt.Not(smt.Eq(r, ex.ref)))
+			hit = smt.Eq(r, ex.ref)
 		} else {
-			conds = append(conds, smt.Not(smt.And(smt.Eq(r, ex.ref), inRange(*ex.lo, k, *ex.hi))))
+			hit = smt.And(smt.Eq(r, ex.ref), inRange(*ex.lo, k, *ex.hi))
 		}
+		if ex.cond != nil {
+			hit = smt.And(*ex.cond, hit)
+		}
+		conds = append(conds, smt.Not(hit))
 	}
 	return smt.And(conds...)
 }
